@@ -50,3 +50,6 @@ for v in viols:
 for key,vs in seen.items():
     print(key, len(vs), "e.g. run", vs[0]["run"], vs[0]["d"][:400])
     print("    beh:", json.dumps([ (s.get("op") or s["ev"])+("@%d"%s["t"] if "t" in s else "")+(":%s"%s["h"] if "h" in s else "") for s in behs[vs[0]["run"]]["steps"]]))
+print("channel conformance: %d runs, %d events, %d drift" % (E.CHAN["runs"], E.CHAN["events"], len(E.CHAN["drift"])))
+for dv in E.CHAN["drift"][:8]:
+    print("  DRIFT", dv)
